@@ -64,6 +64,9 @@ class IdentityCommunity(Community):
 
         # Dict of hash -> (attribute_name, date, public_key)
         self.known_attestation_hashes: dict[bytes, tuple[str, float, bytes, dict[str, str] | None]] = {}
+        # Hashes of the metadata we attested to. The database keeps a single attestation per metadata entry,
+        # so our own attestation is not stored when someone else's attestation for it was stored first.
+        self.attested_metadata: set[bytes] = set()
 
         self.identity_manager = settings.identity_manager
         self.pseudonym_manager = settings.identity_manager.get_pseudonym(cast("PrivateKey", self.my_peer.key))
@@ -156,6 +159,9 @@ class IdentityCommunity(Community):
                      != self.known_attestation_hashes[attribute_hash][3])):
             self.logger.debug("Not signing %s, metadata does not match!", str(metadata))
             return False
+        if metadata.get_hash() in self.attested_metadata:
+            self.logger.debug("Not signing %s, already attested!", str(metadata))
+            return False
         for attestation in pseudonym.database.get_attestations_over(metadata):
             if pseudonym.database.get_authority(attestation) == self.my_peer.public_key.key_to_bin():
                 self.logger.debug("Not signing %s, already attested!", str(metadata))
@@ -200,6 +206,7 @@ class IdentityCommunity(Community):
                         attestation = pseudonym.create_attestation(credential.metadata,
                                                                    cast("PrivateKey", self.my_peer.key))
                         pseudonym.add_attestation(self.my_peer.public_key, attestation)
+                        self.attested_metadata.add(credential.metadata.get_hash())
                         self.ez_send(peer, AttestPayload(attestation.get_plaintext_signed()))
             for attribute_hash in required_attributes:
                 if attribute_hash not in known_attributes:
